@@ -164,7 +164,19 @@ def make_case(rng, tier, pos=None, pcls=None, via=None):
     pos = pos or rng.choice(POSITIONS)
     pcls = pcls or rng.choice(PCLASSES)
     cond = leaf_with_path(rng, doc, nodes, pos, pcls)
-    if rng.random() < 0.25:
+    if rng.random() < 0.3:
+        # the path-carrying leaf deep inside nested combinations (either side, any operator)
+        for _ in range(rng.randint(1, 3)):
+            o = PC.L("value", "truthy")
+            for _ in range(10):
+                o = G.leaf(rng, kind="value", well_typed=True, pool=nodes or None)
+                if build.dtype_args_are_types(o):
+                    break
+            inner = {"c": rng.choice(["and", "or", "xor"]), "a": o, "b": cond} if rng.random() < 0.6 else \
+                    {"c": rng.choice(["and", "or", "xor"]), "a": cond, "b": o}
+            o2 = PC.L("value", rng.choice(["truthy", "falsy", "null"]))
+            cond = {"c": rng.choice(["and", "or", "xor"]), "a": o2, "b": inner} if rng.random() < 0.6 else inner
+    elif rng.random() < 0.25:
         other = PC.L("value", "truthy")
         for _ in range(10):
             other = G.leaf(rng, kind="value", well_typed=True, pool=nodes or None)
